@@ -129,6 +129,9 @@ def propAbort (s : Sys) (p : Proposal) : Plan :=
       else if c.applied = p.prev ∧ c.committed ≥ p.index then
         { effects := statusWrite c c.aview c.view (.abortApplied p.index) .error ++ [.prop id p.version .abortDone] }
       else .nop
+  | .done =>
+    -- ABORTED: the next proposal of the target may be waiting for the indexes this abort advanced
+    if p.next ≠ 0 then { requeue := some (.prop (p.target, p.next)) } else .nop
   | _ => .nop
 
 def propCommit (s : Sys) (p : Proposal) (env : Env) : Plan :=
@@ -183,7 +186,7 @@ def propApply (s : Sys) (p : Proposal) (env : Env) : Plan :=
               { effects := [.dev req] ++
                   statusWrite c (overlay c.aview r.1) r.2 (.setApplied p.index) .error ++
                   [.prop id p.version (.applyDone c.term)] }
-  | .done =>
+  | .done | .failed =>
     if p.next ≠ 0 then { requeue := some (.prop (p.target, p.next)) } else .nop
   | _ => .nop
 
